@@ -8,6 +8,7 @@ from .. import paths, waiters
 from ..core import FUNC, call_attr, calls_in, const, dotted, kwarg, is_const, norm, text, walk_local
 
 EXPLANATION = [
+    'C09.request-scope: every walk over le_coc_requests in bumble.l2cap is restricted to one connection handle, and LeCreditBasedChannel.connect tests the (handle, identifier) key by membership.',
     'C09.refusal-closes: ClassicChannel._disconnect_sync is called only from disconnect() and the configuration handlers; a refused Connection Response sets the state to CLOSED directly.',
     'C09.primitive-rebinding: no method of a bumble.l2cap class replaces an asyncio.Event / Lock / Semaphore created in __init__ (a pending drain() waits on the old object for ever).',
     'C09.teardown-contained: each abort() in the loops of ChannelManager.on_disconnection is inside a try / except Exception (no re-raise) within the loop body: one failing close listener does not stop the teardown of the link.',
@@ -1255,7 +1256,37 @@ def refusal_closes(ctx):
     R.check(bool(closes), rule, f'{CC}.on_connection_response | refusal', 'a refused open goes to CLOSED', 'on_connection_response no longer closes a refused channel', p.loc(fn))
 
 
+def request_scope(ctx):
+    """Pending LE connection requests are keyed by (connection handle, identifier) and identifiers are counted per link:
+    whatever walks le_coc_requests restricts itself to one link (mentions the handle) - a test over all links makes a
+    request pending on one link block an open on another."""
+    R, p = ctx.r, ctx.p
+    rule = 'C09.request-scope'
+    m = p.modules.get('bumble.l2cap')
+    if m is None:
+        R.bad(rule, 'bumble.l2cap', 'anchor missing')
+        return
+    n = 0
+    for node in ast.walk(m.tree):
+        iters = []
+        if isinstance(node, (ast.GeneratorExp, ast.ListComp, ast.SetComp, ast.DictComp)):
+            iters = [(g.iter, node) for g in node.generators]
+        elif isinstance(node, (ast.For, ast.AsyncFor)):
+            iters = [(node.iter, node)]
+        for it, scope in iters:
+            base = it.func.value if isinstance(it, ast.Call) and isinstance(it.func, ast.Attribute) and it.func.attr in ('values', 'items', 'keys') else it
+            if not (dotted(base) or '').endswith('le_coc_requests'):
+                continue
+            n += 1
+            body = scope if not isinstance(scope, (ast.For, ast.AsyncFor)) else ast.Module(body=scope.body, type_ignores=[])
+            R.check('handle' in norm(scope), rule, f'{p.qual_of(node)} | walk over le_coc_requests', 'restricted to one link', f'`{norm(scope)[:80]}` looks at the pending requests of every link: identifiers are per link, so a request pending on one connection makes an open on another fail ("too many concurrent connection requests")', f'{m.rel}:{node.lineno}')
+    conn = p.find(f'{LE}.connect')
+    keyed = conn is not None and any(isinstance(c, ast.Compare) and isinstance(c.ops[0], (ast.In, ast.NotIn)) and (dotted(c.comparators[0]) or '').endswith('le_coc_requests') for c in ast.walk(conn))
+    R.check(keyed and n >= 1, rule, f'{LE}.connect | busy test', 'membership of the (handle, identifier) key', 'connect() no longer tests the (handle, identifier) key for membership', p.loc(conn) if conn is not None else '')
+
+
 RULES = [
+    ('C09.request-scope', request_scope),
     ('C09.refusal-closes', refusal_closes),
     ('C09.primitive-rebinding', primitive_rebinding_rule),
     ('C09.teardown-contained', teardown_contained),
